@@ -209,3 +209,90 @@ def r14_iter_find(elem_type, ensures):
             u.rules['R14'] += 1
         return text
     return rule
+
+
+def r4_inline_closure(name):
+    """R4: a local, non-escaping closure `let [mut] NAME = |P| BODY;` (capturing `&mut` locals, which Verus rejects)
+    is removed and every call `NAME(ARG)` becomes `{ let P = ARG; BODY' }` where BODY' is BODY without its outer braces.
+    Only single-parameter closures without type annotation; calls must be expression statements."""
+    def rule(u, key, text):
+        m = re.search(r'let\s+(?:mut\s+)?%s\s*=\s*\|\s*([A-Za-z_][A-Za-z0-9_]*)\s*\|' % re.escape(name), text)
+        if not m:
+            return text
+        param = m.group(1)
+        rest = text[m.end():]
+        toks = tokenize(rest)
+        match = rsparse.match_brackets_lenient(toks)
+        if not toks or toks[0].text != '{':
+            raise LostAnchor('%s: R4 closure %s has no block body' % (key, name))
+        close = match[0]
+        body = rest[toks[0].end:toks[close].start].strip()
+        if toks[close + 1].text != ';':
+            raise LostAnchor('%s: R4 closure %s not terminated by ;' % (key, name))
+        # remove the definition (whole lines)
+        ls = text.rfind('\n', 0, m.start()) + 1
+        le = m.end() + toks[close + 1].end
+        text = text[:ls] + '\t\t/* R4: closure `%s` inlined at its call sites */' % name + text[le:]
+        # calls
+        n = 0
+        while True:
+            mm = re.search(r'(?<![A-Za-z0-9_.])%s\s*\(' % re.escape(name), text)
+            if not mm:
+                break
+            r2 = text[mm.end() - 1:]
+            t2 = tokenize(r2)
+            m2 = rsparse.match_brackets_lenient(t2)
+            c2 = m2[0]
+            arg = r2[t2[0].end:t2[c2].start].strip()
+            text = text[:mm.start()] + '{ let %s = %s; %s }' % (param, arg, body) + text[mm.end() - 1 + t2[c2].end:]
+            n += 1
+        if n == 0:
+            raise LostAnchor('%s: R4 closure %s is never called' % (key, name))
+        u.rules['R4'] += 1
+        return text
+    return rule
+
+
+def r17_for_enumerate(u, key, text):
+    """R17: `for (I, X) in V.iter().enumerate() { BODY }` -> `let mut I = 0; while I < V.len() { let X = &V[I]; BODY I += 1; }`
+    (only for bodies without `continue`)."""
+    while True:
+        m = re.search(r'for\s*\(\s*(\w+)\s*,\s*(\w+)\s*\)\s*in\s+([\w.]+)\.iter\(\)\.enumerate\(\)\s*\{', text)
+        if not m:
+            return text
+        i, x, v = m.group(1), m.group(2), m.group(3)
+        rest = text[m.end() - 1:]
+        toks = tokenize(rest)
+        match = rsparse.match_brackets_lenient(toks)
+        close = match[0]
+        body = rest[toks[0].end:toks[close].start]
+        if re.search(r'\bcontinue\b', body):
+            raise LostAnchor('%s: R17 body contains continue' % key)
+        new = ('let mut %s: usize = 0;\n\t\twhile %s < %s.len()\n\t\t{\n\t\t\tlet %s = &%s[%s];%s\t%s += 1;\n\t\t}'
+               % (i, i, v, x, v, i, body, i))
+        text = text[:m.start()] + new + text[m.end() - 1 + toks[close].end:]
+        u.rules['R17'] += 1
+
+
+def r18_annotate(var, ty):
+    """R18: `let [mut] VAR = E;` -> `let [mut] VAR: TY = E;`  (explicit type for a binding whose type rustc infers from
+    later uses; Verus' spliced invariants mention the variable before those uses).  rustc rejects a wrong annotation."""
+    def rule(u, key, text):
+        pat = re.compile(r'(let\s+(?:mut\s+)?%s)(\s*=)' % re.escape(var))
+        if not pat.search(text):
+            return text
+        u.rules['R18'] += 1
+        return pat.sub(lambda m: '%s: %s%s' % (m.group(1), ty, m.group(2)), text, count=1)
+    return rule
+
+
+def r19_with_capacity(u, key, text):
+    """R19: `Vec::with_capacity(n)` -> `vec_with_capacity(n)`: a trusted wrapper (prelude/delta_uninit.rs) around the same
+    std call whose spec adds `vec_cap(v) == n` (vstd already specifies with_capacity, without the capacity; a second
+    assume_specification is rejected as duplicate).  ASSUMPTION: the allocation has capacity exactly n (true of the pinned
+    std for sized element types; the code's own assert_eq! on capacities relies on it)."""
+    n = len(re.findall(r'\bVec::with_capacity\(', text))
+    if n:
+        u.rules['R19'] += n
+        text = re.sub(r'\bVec::with_capacity\(', 'vec_with_capacity(', text)
+    return text
